@@ -162,3 +162,22 @@ def clone(node):
     for a in ("lineno", "col_offset", "end_lineno", "end_col_offset"):
         if hasattr(node, a): setattr(new, a, getattr(node, a))
     return new
+
+def module_str_env(tree):
+    """module-level names bound to string constants (directly or by concatenation / f-strings of such): name -> str"""
+    from sa import pyeval
+    env = {}
+    for n in tree.body:
+        if isinstance(n, ast.Assign) and len(n.targets) == 1 and isinstance(n.targets[0], ast.Name):
+            try:
+                v = pyeval.evaluate(n.value, env)
+                if isinstance(v, str): env[n.targets[0].id] = v
+            except AnalysisError: pass
+    return env
+def const_str(expr, tree):
+    """the string an expression denotes (constants, +, f-strings, module-level string names), else None"""
+    from sa import pyeval
+    try:
+        v = pyeval.evaluate(expr, module_str_env(tree))
+        return v if isinstance(v, str) else None
+    except AnalysisError: return None
